@@ -1,5 +1,15 @@
+//! Account blueprint monitors. C39: account deposit rules are enforced exactly.
+mod c39;
+mod c39_gen;
+
 fn main() {
     let args = rv_common::parse_args();
-    eprintln!("no check named {}", args.prop);
-    std::process::exit(2);
+    let code = match args.prop.as_str() {
+        "C39" => c39::run(&args),
+        other => {
+            eprintln!("rv-account: no check named {other}");
+            2
+        }
+    };
+    std::process::exit(code);
 }
